@@ -236,4 +236,78 @@ def main(tier):
     run.assumptions += ["icu_calendar %s as pinned in Cargo.lock is the oracle; a dependency bump changes the oracle" %
                         "2.0.0-beta2", "era codes are recognised as the lowercase string/tinystr literals reachable from "
                         "the library's date_from_codes"]
+    # ISO month lengths are used for the ISO calendar only
+    r8 = "R11.iso-month-lengths-only-under-is-iso"
+    run.rule(r8, "in ResolvedCalendarFields::try_from_partial the ISO day-range helpers (constrain_iso_day, is_valid_iso_day, "
+                 "iso_days_in_month) are reached only on paths that decided `calendar.is_iso()` true: other calendars have "
+                 "other month lengths (a day that is valid there must not be clamped to the ISO month)")
+    ftp = fx["temporal_rs"].fn("temporal_rs::builtins::core::calendar::types::ResolvedCalendarFields::try_from_partial")
+    if ftp is None:
+        run.anchor_missing(r8, "try_from_partial", "not found")
+    else:
+        ev = H.Evaluator(fx)
+        ev.inline = lambda p: p.startswith("temporal_rs::error::")
+        try:
+            paths = ev.paths(ftp, [H.Sym("param", (p["name"],)) for p in ftp.params], max_paths=600)
+        except H.Budget:
+            paths = None
+        if paths is None:
+            run.ok(r8, "try_from_partial", "too many paths: not decided", ftp.loc, nontrivial=False)
+        else:
+            reach = bad = 0
+            for dec, res, tr in paths:
+                if any(str(c.parts[0]).endswith(("::constrain_iso_day", "::is_valid_iso_day", "::iso_days_in_month")) for c in tr):
+                    reach += 1
+                    g = [ch for c, ch in dec if "is_iso" in c]
+                    if not g or g[0] is not True:
+                        bad += 1
+            run.check(reach > 0 and bad == 0, r8, "try_from_partial", "%d path(s) use ISO month lengths, all under is_iso()" % reach,
+                      "%d of %d paths reach the ISO day-range helpers without `calendar.is_iso()` being true" % (bad, reach), ftp.loc)
+    # era-year ranges cover every (era, eraYear) icu_calendar can report for the Japanese calendar
+    r7 = "R1.japanese-era-ranges-cover-icu"
+    run.rule(r7, "the accepted era-year range of each Japanese era covers every era year icu_calendar reports: era E lasts from "
+                 "its start year to the next era's start year (inclusive), and dates of 1868 before the Meiji start are reported "
+                 "in the `ce` era with year 1868 - start years are read from icu_calendar's own constants")
+    icu, rs_ = fx["icu_calendar"], fx["temporal_rs"]
+
+    def const_term(crate, suffix):
+        g = next((f for f in crate.fns if f.path.endswith(suffix) and f.kind.startswith("Const") and f.hir is not None), None)
+        if g is None:
+            return None
+        try:
+            return H.Evaluator(fx).ev(g.hir["value"] if "value" in g.hir else g.hir, {})
+        except Exception:
+            return None
+
+    def field(t, name):
+        if isinstance(t, H.S):
+            for k, v in t.fields:
+                if k == name:
+                    return v
+        return None
+    starts = {}
+    for era, cname in (("meiji", "MEIJI_START"), ("taisho", "TAISHO_START"), ("showa", "SHOWA_START"), ("heisei", "HEISEI_START"),
+                       ("reiwa", "REIWA_START")):
+        y = field(const_term(icu, "japanese::" + cname), "year")
+        if isinstance(y, int):
+            starts[era] = y
+    if len(starts) < 5:
+        run.anchor_missing(r7, "icu-era-starts", "could not read the five era start years from icu_calendar (%s)" % starts)
+    else:
+        order = ["meiji", "taisho", "showa", "heisei", "reiwa"]
+        need = {"japanese": starts["meiji"]}
+        for a, b in zip(order, order[1:]):
+            need[a] = starts[b] - starts[a] + 1
+        tem = {"japanese": "JAPANESE_ERA", "meiji": "MEJEI_ERA", "taisho": "TAISHO_ERA", "showa": "SHOWA_ERA", "heisei": "HEISEI_ERA"}
+        for era, want in need.items():
+            t = const_term(rs_, "era::" + tem[era])
+            rng = field(t, "range")
+            hi = getattr(rng, "hi", None) if rng is not None else None
+            if hi is None and rng is not None:
+                import re as _re
+                m = _re.search(r"\.\.=(-?\d+)", show(rng))
+                hi = int(m.group(1)) if m else None
+            run.check(hi is not None and hi >= want, r7, era, "era years up to %s accepted (icu reports up to %d)" % (hi, want),
+                      "era `%s` accepts era years up to %s, but icu_calendar reports dates with era year %d in it (era start "
+                      "years %s): such a date cannot be rebuilt from its own fields" % (era, hi, want, starts))
     return run.finish(EXPLANATION)
